@@ -58,6 +58,12 @@ pub fn polls_total() -> u64 {
 }
 
 pub fn block_on<F: Future>(fut: F) -> Result<F::Output, ExecError> {
+    block_on_cancel(fut, || false).map(|o| o.expect("not cancellable"))
+}
+
+/// Like `block_on`, but after every `Pending` the simulator may decide to cancel: the future is
+/// dropped on the spot (its pending stream operation is never completed) and `None` is returned.
+pub fn block_on_cancel<F: Future>(fut: F, cancel: impl Fn() -> bool) -> Result<Option<F::Output>, ExecError> {
     // wake-ups left over from an earlier, abandoned future must not leak into this one
     DEFERRED.with(|d| d.borrow_mut().clear());
     let flag = Arc::new(Flag { woken: AtomicBool::new(false), wakes: AtomicU64::new(0) });
@@ -72,9 +78,14 @@ pub fn block_on<F: Future>(fut: F) -> Result<F::Output, ExecError> {
             Poll::Ready(v) => {
                 POLLS.with(|p| *p.borrow_mut() += polls);
                 DEFERRED.with(|d| d.borrow_mut().clear());
-                return Ok(v);
+                return Ok(Some(v));
             }
             Poll::Pending => {
+                if cancel() {
+                    POLLS.with(|p| *p.borrow_mut() += polls);
+                    DEFERRED.with(|d| d.borrow_mut().clear());
+                    return Ok(None);
+                }
                 let deferred: Vec<Waker> = DEFERRED.with(|d| std::mem::take(&mut *d.borrow_mut()));
                 for w in deferred {
                     w.wake();
